@@ -19,6 +19,7 @@ CLAIMED = {
     "C05": ("§5 C05", "SSA symbolic execution + SMT over a byte-addressed memory model: WriteTo/ToBytes/MarshalBinary of symbolic bitmaps through bytes.Buffer and the unsafe slice views, decoded by each entry point (incl. chunked readers, reused receivers, trailing bytes, failing writers) and compared pointwise"),
     "C06": ("§5 C06", "SSA symbolic execution + SMT: an independent harness-side codec written from the format description; library bytes parsed field by field (cookie, count, run flags, descriptors, offsets, payload forms), and spec-conformant streams with every legal encoder choice read by the library and compared pointwise"),
     "C09": ("§5 C09", "SSA symbolic execution + SMT: invariant-only mode of the C01/C02 harness families from states satisfying the full invariant; wf(result) and the real Validate()==nil asserted after every operation"),
+    "C10": ("§5 C10", "SSA symbolic execution + SMT: every decoder on FULLY symbolic byte strings of every length up to the bound (every Go panic / out-of-buffer access / oversized allocation is a proof obligation; attacker-sized buffers are modelled lazily), every proper prefix of valid streams, V=>I on unconstrained representations, MustReadFrom vs ReadFrom"),
     "C14": ("§5 C14", "SSA symbolic execution + SMT (bit-vectors and cvc5 integer encoding): the real size accounting and BoundSerializedSizeInBytes executed over SYMBOLIC cardinalities/run counts satisfying the invariant (n <= 8/16 chunks), plus short real histories"),
     "C15": ("§5 C15", "SSA symbolic execution + SMT: neighbour queries with free target and free probe (nearest-ness is universally quantified); per-kind helpers separately"),
 }
